@@ -68,6 +68,10 @@ enum Defaults {
     StateOnly(usize),
     Inline(usize, Vec<(usize, String)>),
     Expr(usize, [String; 4]),
+    /// an expression that is a function call: `make_vals(a, b, n, k)`
+    Call(usize, [String; 4]),
+    /// struct update syntax: `MVals { a: .., n: .., ..MVals::default() }`
+    Update(usize, [String; 2]),
 }
 
 struct Arm {
@@ -393,13 +397,26 @@ fn gen_animator(rng: &mut Rng) -> Animator {
             }
             Defaults::Inline(rng.usize_below(4), fields)
         }
-        _ => {
-            features.push("default-expression");
-            Defaults::Expr(
-                rng.usize_below(4),
-                [value_lit(rng, 0), value_lit(rng, 1), value_lit(rng, 2), value_lit(rng, 3)],
-            )
-        }
+        _ => match rng.below(3) {
+            0 => {
+                features.push("default-expression");
+                Defaults::Expr(
+                    rng.usize_below(4),
+                    [value_lit(rng, 0), value_lit(rng, 1), value_lit(rng, 2), value_lit(rng, 3)],
+                )
+            }
+            1 => {
+                features.push("default-expression-call");
+                Defaults::Call(
+                    rng.usize_below(4),
+                    [value_lit(rng, 0), value_lit(rng, 1), value_lit(rng, 2), value_lit(rng, 3)],
+                )
+            }
+            _ => {
+                features.push("default-expression-struct-update");
+                Defaults::Update(rng.usize_below(4), [value_lit(rng, 0), value_lit(rng, 2)])
+            }
+        },
     };
     let mut free: Vec<usize> = vec![0, 1, 2, 3];
     rng.shuffle(&mut free);
@@ -529,6 +546,16 @@ fn render_macro(a: &Animator) -> String {
                 v[0], v[1], v[2], v[3]
             );
         }
+        Defaults::Call(st, v) => {
+            let _ = writeln!(s, "    default(MSt::S{st}, make_vals({}, {}, {}, {})),", v[0], v[1], v[2], v[3]);
+        }
+        Defaults::Update(st, v) => {
+            let _ = writeln!(
+                s,
+                "    default(MSt::S{st}, MVals {{ a: {}, n: {}, ..MVals::default() }}),",
+                v[0], v[1]
+            );
+        }
     }
     let arms: Vec<String> = a
         .arms
@@ -578,11 +605,18 @@ fn render_builder(a: &Animator) -> String {
                 let _ = writeln!(s, "        default_values.{} = {};", FIELDS[*f], v);
             }
         }
-        Defaults::Expr(_, v) => {
+        Defaults::Expr(_, v) | Defaults::Call(_, v) => {
             let _ = writeln!(
                 s,
                 "        let default_values = MVals {{ a: {}, b: {}, n: {}, k: {} }};",
                 v[0], v[1], v[2], v[3]
+            );
+        }
+        Defaults::Update(_, v) => {
+            let _ = writeln!(
+                s,
+                "        let default_values = MVals {{ a: {}, b: 0.0, n: {}, k: 0 }};",
+                v[0], v[1]
             );
         }
     }
@@ -592,7 +626,11 @@ fn render_builder(a: &Animator) -> String {
     // twins the initial state / values are given before the timelines, in the other half after.
     let mut defaults = String::new();
     match &a.defaults {
-        Defaults::StateOnly(st) | Defaults::Inline(st, _) | Defaults::Expr(st, _) => {
+        Defaults::StateOnly(st)
+        | Defaults::Inline(st, _)
+        | Defaults::Expr(st, _)
+        | Defaults::Call(st, _)
+        | Defaults::Update(st, _) => {
             let _ = writeln!(defaults, "            .from_state(MSt::S{st})");
         }
         Defaults::None => {}
